@@ -41,6 +41,11 @@ def gen(tier, rng):
                 for var in ("sync", "async:1"):
                     late = t0 + off * P.NS
                     out.append((P.line(var, "5", None, None, ex, True, [t0, late, late, t0 + ex * P.NS, t0 + ex * P.NS + 1], ["pending", "pending", "pending", "success"]), "long-lifetime"))
+    # large, valid documents through a 200 reply (around and beyond 64 KiB): accepted like small ones
+    for size in (65000, 65537, 70000):
+        m_, known_ = D.family_doc("device", rng, False)
+        for pad in (("padding", "x" * size), ("padding", ["y"] * (size // 4))):
+            out.append((c05.http_line("sync" if size % 2 else "async", "devauth", False, 200, b"application/json", D.render(D.obj(m_ + [pad]), rng, plain=True)), "large-http"))
     return out
 
 
